@@ -1,6 +1,7 @@
 package main
 
 import (
+	"fmt"
 	"go/token"
 	"go/types"
 	"sort"
@@ -239,4 +240,132 @@ func itoa(i int) string {
 		i /= 10
 	}
 	return s
+}
+
+// rangeChecked: the decoded value v, about to be converted to the integer type
+// `target`, is confined to target's range by dominating comparisons with
+// constants (or by a validator whose nil result implies the bound): an upper
+// bound not above target's maximum and — when the source is signed and can be
+// below target's minimum — a lower bound not below target's minimum.
+func rangeChecked(b *ssa.BasicBlock, v ssa.Value, target types.Type) (bool, string) {
+	tb, _ := target.Underlying().(*types.Basic)
+	sb, _ := v.Type().Underlying().(*types.Basic)
+	if tb == nil || sb == nil {
+		return false, "not an integer conversion"
+	}
+	bits, _ := intSize(target)
+	tUnsigned := tb.Info()&types.IsUnsigned != 0
+	sUnsigned := sb.Info()&types.IsUnsigned != 0
+	var tmin, tmax int64
+	if tUnsigned {
+		tmin = 0
+		if bits >= 63 {
+			tmax = 1<<62 + (1<<62 - 1)
+		} else {
+			tmax = 1<<uint(bits) - 1
+		}
+	} else {
+		tmin, tmax = -(1 << uint(bits-1)), 1<<uint(bits-1)-1
+	}
+	d := Desc(stripConv(v))
+	gs := Guards(b)
+	upper, lower := false, sUnsigned
+	var upWhy string
+	constOf := func(x ssa.Value) (int64, bool) {
+		if k, ok := constInt(x); ok {
+			return k, true
+		}
+		if a := Affine(x); a.isConst() {
+			return a.C, true
+		}
+		return 0, false
+	}
+	for _, g := range cmpOf(gs) {
+		if Desc(stripConv(g.Lo)) == d {
+			if k, ok := constOf(g.Hi); ok {
+				if g.Strict {
+					k--
+				}
+				if k <= tmax {
+					upper, upWhy = true, "compared with a constant bound within the target range"
+				} else if upWhy == "" {
+					upWhy = fmt.Sprintf("the dominating upper bound %d exceeds the target maximum %d", k, tmax)
+				}
+			}
+		}
+		if Desc(stripConv(g.Hi)) == d {
+			if k, ok := constOf(g.Lo); ok {
+				if g.Strict {
+					k++
+				}
+				if k >= tmin {
+					lower = true
+				}
+			}
+		}
+	}
+	if !upper {
+		// validator route (as in upperBounded), with the magnitude checked
+		for _, g := range gs {
+			bo, ok := g.Cond.(*ssa.BinOp)
+			if !ok || (bo.Op != token.EQL && bo.Op != token.NEQ) {
+				continue
+			}
+			var res ssa.Value
+			switch {
+			case isNilConst(bo.Y):
+				res = bo.X
+			case isNilConst(bo.X):
+				res = bo.Y
+			default:
+				continue
+			}
+			if isNil := (bo.Op == token.EQL && g.Pol) || (bo.Op == token.NEQ && !g.Pol); !isNil {
+				continue
+			}
+			var call *ssa.Call
+			idx := 0
+			switch r := res.(type) {
+			case *ssa.Call:
+				call = r
+			case *ssa.Extract:
+				call, _ = r.Tuple.(*ssa.Call)
+				idx = r.Index
+			}
+			if call == nil {
+				continue
+			}
+			fn := staticCallee(call)
+			if fn == nil || fn.Blocks == nil {
+				continue
+			}
+			for ai, a := range call.Call.Args {
+				if Desc(stripConv(a)) != d {
+					continue
+				}
+				for _, f := range SummaryNilErr(fn, idx) {
+					if m := re(`^\+\(P(\d+) (<=?) const:(\d+)\)$`).FindStringSubmatch(f); m != nil && m[1] == itoa(ai) {
+						k := atoi64(m[3])
+						if m[2] == "<" {
+							k--
+						}
+						if k <= tmax {
+							upper, upWhy = true, "validated by "+FnName(fn)
+							// a validator over an unsigned or big value also excludes negatives when it takes the same value
+						}
+					}
+				}
+			}
+		}
+	}
+	if upper && lower {
+		return true, upWhy
+	}
+	if upper && !lower {
+		return false, fmt.Sprintf("upper bound checked, but the signed source can be below the target minimum %d and no lower bound dominates", tmin)
+	}
+	if upWhy == "" {
+		upWhy = "no dominating upper bound"
+	}
+	return false, upWhy
 }
